@@ -6,6 +6,7 @@ import (
 	"sort"
 	"strconv"
 	"strings"
+	"unicode/utf8"
 
 	"github.com/hashicorp/hcl-lang/lang"
 	"github.com/hashicorp/hcl/v2"
@@ -46,6 +47,11 @@ func rangeProblem(w *world.World, path string, r hcl.Range) string {
 		return ""
 	}
 	src := []byte(text)
+	if !utf8.Valid(src) {
+		// a buffer cut inside a multi-byte character: lines/columns (grapheme clusters) of the
+		// tail are not well defined; only file and byte bounds are checked
+		return ""
+	}
 	if !run.RuneBoundary(src, r.Start.Byte) || !run.RuneBoundary(src, r.End.Byte) {
 		return "mid-rune"
 	}
